@@ -17,7 +17,8 @@ def check(ctx):
         "(collect / flat_map; only SpanContext::from_span may read the first item), a scope re-issues its token item by item and no "
         "token is filtered or reordered before the submit choke point; R7 SpanId::next_id stores (prefix, counter + c) back with a "
         "non-zero constant c on every call, composes the id as (prefix << 32) | counter, draws the prefix at random per thread "
-        "and falls back to a random id during thread-local teardown.")
+        "and falls back to a random id during thread-local teardown; R8 enter_with_parents answers with a no-op span only when the "
+        "token collected from all parents is empty (never because of the first parent alone).")
     ctx.not_decided = ("uniqueness / non-zero of generated ids as values (collisions of random prefixes, counter wrap-around after 2^32 ids: value level); that the "
                        "tree is right for every nesting (the rules show each link is built from the right source, not "
                        "that the source holds the right runtime value).")
@@ -35,3 +36,4 @@ def check(ctx):
     c = collector.Collector(ctx, facts)
     if c.need("R5"):
         spanrules.rule_fanout(ctx, c, "R5")
+    spanrules.rule_noop_only_without_parent(ctx, facts, "R8")
